@@ -219,9 +219,14 @@ def build(ctx):
     ctx.unit("header", lambda: unit_header(ctx))
     ctx.unit("metric_names", lambda: unit_metric_names(ctx))
     ctx.unit("codec_lemma", lambda: unit_codec_lemma(ctx))
+    # rows are laid out by the aggregator that is RUNNING, the header by the one that created the file: both must be the same layout,
+    # which is the constructor's header check (C17), regenerated here
+    include_stage(ctx, "C17")
     ctx.add_bounded("c18-roundtrip", "c18.bounded")
 
 
 def concretise(ctx, o, r):
+    if (o.info or {}).get("stage"):
+        return stage_concretise(ctx, o, r)
     m = r.get("model") or {}
     return {"group1": m.get("group1"), "group2": m.get("group2"), "subject": m.get("subject"), "obligation": o.name}
